@@ -27,6 +27,8 @@ class VLoop(asyncio.SelectorEventLoop):
         self.after_handle = None
         self.handles_run = 0
         self.max_handles = 5_000_000
+        self.spin = 0               # consecutive iterations without the clock moving while timers are pending
+        self.spin_limit = 300       # a busy-waiting coroutine (map_async's slot wait) must not freeze virtual time
 
     def time(self):
         return self._vtime
@@ -40,10 +42,13 @@ class VLoop(asyncio.SelectorEventLoop):
             h = heapq.heappop(sched)
             h._scheduled = False
             self._timer_cancelled_count = max(0, self._timer_cancelled_count - 1)
-        if not self._ready and sched:
+        if sched and (not self._ready or self.spin > self.spin_limit):
             when = sched[0]._when
             if when > self._vtime:
                 self._vtime = when
+                self.spin = 0
+        elif sched:
+            self.spin += 1
         event_list = self._selector.select(0)
         if event_list:
             self._process_events(event_list)
@@ -75,18 +80,30 @@ class VLoop(asyncio.SelectorEventLoop):
         handle = None
 
 
-async def settle(loop=None, rounds=1):
-    """Return once nothing else is runnable at the current virtual instant."""
+async def settle(loop=None, rounds=1, spin_ok=120):
+    """Return once nothing else is runnable at the current virtual instant.
+
+    A coroutine that busy-waits with `sleep(0)` (map_async waiting for a work slot) keeps the
+    loop non-idle for ever; after `spin_ok` iterations in which nothing but the same number of
+    handles keeps being ready the state is taken as settled-but-spinning."""
     loop = loop or asyncio.get_event_loop()
     quiet = 0
+    same = 0
+    last = None
     for _ in range(100000):
         await asyncio.sleep(0)
-        if not loop._ready:
+        n = len(loop._ready)
+        if not n:
             quiet += 1
             if quiet >= rounds:
                 return
         else:
             quiet = 0
+            same = same + 1 if n == last else 0
+            last = n
+            if same >= spin_ok:
+                loop.spinning = True
+                return
     raise RuntimeError("settle: loop never became idle")
 
 
